@@ -36,6 +36,17 @@ type HarnessFile struct {
 	Funcs   []HarnessFunc
 	PkgName string
 	Stubs   [][2]string // (repo function full name, zzvf function) pairs
+	GoRun   []string    // `//vf:go <substring>`: go statements run as cooperative coroutines
+	Imports []ImportRw  // `//vf:import <pkgdir> <from> <to> native|both`
+}
+
+// ImportRw substitutes an environment package for a standard-library import in every
+// non-test file of one repo package (overlay copies regenerated from /repo's current
+// source): natively only ("native": crash-injecting wrapper around the real os) or in
+// both the symbolic load and the native replay ("both": in-memory network model).
+type ImportRw struct {
+	Dir, From, To string
+	Both          bool
 }
 
 type HarnessFunc struct {
@@ -44,6 +55,8 @@ type HarnessFunc struct {
 }
 
 var dirRe = regexp.MustCompile(`(?m)^//vf:dir\s+(\S+)`)
+var importRe = regexp.MustCompile(`(?m)^//vf:import\s+(\S+)\s+(\S+)\s+(\S+)\s+(native|both)`)
+var goRunRe = regexp.MustCompile(`(?m)^//vf:go\s+(\S+)`)
 var stubRe = regexp.MustCompile(`(?m)^//vf:stub\s+(\S+)\s+(\S+)`)
 var useRe = regexp.MustCompile(`(?m)^//vf:use\s+(\S+)`)
 
@@ -86,6 +99,12 @@ func loadHarnessFiles(prop string) ([]*HarnessFile, error) {
 		hf.PkgName = af.Name.Name
 		for _, m := range stubRe.FindAllSubmatch(src, -1) {
 			hf.Stubs = append(hf.Stubs, [2]string{string(m[1]), string(m[2])})
+		}
+		for _, m := range goRunRe.FindAllSubmatch(src, -1) {
+			hf.GoRun = append(hf.GoRun, string(m[1]))
+		}
+		for _, m := range importRe.FindAllSubmatch(src, -1) {
+			hf.Imports = append(hf.Imports, ImportRw{Dir: string(m[1]), From: string(m[2]), To: string(m[3]), Both: string(m[4]) == "both"})
 		}
 		for _, d := range af.Decls {
 			fd, ok := d.(*ast.FuncDecl)
@@ -146,7 +165,69 @@ func overlayMap(hfs []*HarnessFile) (map[string][]byte, error) {
 	for _, h := range hfs {
 		ov[h.Virtual] = h.Src
 	}
+	for _, h := range hfs {
+		for _, rw := range h.Imports {
+			if !rw.Both {
+				continue
+			}
+			files, err := repoGoFiles(rw.Dir)
+			if err != nil {
+				return nil, err
+			}
+			for _, f := range files {
+				src, ok := ov[f]
+				if !ok {
+					if src, err = os.ReadFile(f); err != nil {
+						return nil, err
+					}
+				}
+				if out, changed := rewriteImport(src, rw.From, rw.To); changed {
+					ov[f] = out
+				}
+			}
+		}
+	}
 	return ov, nil
+}
+
+func repoGoFiles(dir string) ([]string, error) {
+	es, err := os.ReadDir(filepath.Join(repoDir, dir))
+	if err != nil {
+		return nil, err
+	}
+	var out []string
+	for _, e := range es {
+		n := e.Name()
+		if !e.IsDir() && strings.HasSuffix(n, ".go") && !strings.HasSuffix(n, "_test.go") && !strings.HasPrefix(n, "zz_") {
+			out = append(out, filepath.Join(repoDir, dir, n))
+		}
+	}
+	return out, nil
+}
+
+// rewriteImport replaces the import of path `from` by `to`, keeping the local name the
+// file uses for it (the last element of `from` unless the file names it itself).
+func rewriteImport(src []byte, from, to string) ([]byte, bool) {
+	fset := token.NewFileSet()
+	af, err := parser.ParseFile(fset, "", src, parser.ImportsOnly)
+	if err != nil {
+		return src, false
+	}
+	for _, im := range af.Imports {
+		if im.Path.Value != strconv.Quote(from) {
+			continue
+		}
+		lo, hi := fset.Position(im.Pos()).Offset, fset.Position(im.End()).Offset
+		name := from[strings.LastIndex(from, "/")+1:]
+		if im.Name != nil {
+			name = im.Name.Name
+		}
+		out := append([]byte{}, src[:lo]...)
+		out = append(out, []byte(name+" "+strconv.Quote(to))...)
+		out = append(out, src[hi:]...)
+		return out, true
+	}
+	return src, false
 }
 
 func loadProgram(hfs []*HarnessFile) (*Program, map[string]*ssa.Package, error) {
@@ -188,6 +269,7 @@ func loadProgram(hfs []*HarnessFile) (*Program, map[string]*ssa.Package, error) 
 		for _, st := range h.Stubs {
 			P.stubFns[st[0]] = st[1]
 		}
+		P.goRun = append(P.goRun, h.GoRun...)
 	}
 	byDir := map[string]*ssa.Package{}
 	for i, p := range pkgs {
